@@ -169,6 +169,15 @@ func genText(t *rapid.T, o textOpts) string {
 	for i := range ls {
 		ls[i] = strings.TrimRight(genLine(t, o), "\r")
 	}
+	// runs of adjacent terminator / escape lines (each line alone is handled differently from a run)
+	if rapid.IntRange(0, 7).Draw(t, "termrun") == 0 {
+		run := rapid.SampledFrom([][]string{{"---", "---"}, {"---", "---", "---"}, {"---", "", "---"}, {"/-/-/-/", "---"}, {"---", "--- "}}).Draw(t, "run")
+		if !o.escapeToken {
+			run = []string{"---", "---"}
+		}
+		pos := rapid.IntRange(0, len(ls)).Draw(t, "runpos")
+		ls = append(ls[:pos:pos], append(append([]string{}, run...), ls[pos:]...)...)
+	}
 	return strings.Join(ls, "\n")
 }
 
